@@ -75,6 +75,20 @@ pub struct UdpCfg {
     pub server_hitch: Option<(u32, u64)>,
     /// (tick, n): a stranger's socket sends n empty datagrams to the server ahead of that tick's client datagrams
     pub empty_flood: Option<(u32, usize)>,
+    /// client 0's token lists, before its relay's address, a second server (own challenge key, same host, other
+    /// port) whose path holds every client datagram for this many ticks: its answers arrive after the fail-over
+    pub decoy_delay: Option<u32>,
+}
+
+struct Decoy {
+    rs: RenetServer,
+    st: NetcodeServerTransport,
+    sock: UdpSocket,
+    server: SocketAddr,
+    client: SocketAddr,
+    /// (bytes, due tick) towards the decoy server
+    queue: Vec<(Vec<u8>, u32)>,
+    forwarded_to_client: u32,
 }
 
 struct Relay {
@@ -139,6 +153,7 @@ struct World<'c> {
     dead: UdpSocket,
     stranger: UdpSocket,
     server_addr: SocketAddr,
+    decoy: Option<Decoy>,
 }
 
 impl<'c> World<'c> {
@@ -155,6 +170,26 @@ impl<'c> World<'c> {
             relays.push(Relay { addr: r.local_addr().unwrap(), client: c.local_addr().unwrap(), server: server_addr, sock: r, queue: vec![], history: [vec![], vec![]], last_authentic_c2s: None, last_tamper: [None, None] });
             client_socks.push(c);
         }
+        let decoy = match cfg.decoy_delay {
+            None => None,
+            Some(_) => {
+                let dsock = sock()?;
+                let server = dsock.local_addr().unwrap();
+                let rsock = sock()?;
+                let st = NetcodeServerTransport::new(
+                    ServerConfig {
+                        current_time: Duration::ZERO,
+                        max_clients: 4,
+                        protocol_id: PROTOCOL,
+                        public_addresses: vec![rsock.local_addr().unwrap()],
+                        authentication: ServerAuthentication::Secure { private_key: KEY },
+                    },
+                    dsock,
+                )
+                .map_err(|e| Violation::new("machinery/socket", e.to_string()))?;
+                Some(Decoy { rs: RenetServer::new(ConnectionConfig::default()), st, sock: rsock, server, client: client_socks[0].local_addr().unwrap(), queue: vec![], forwarded_to_client: 0 })
+            }
+        };
         let st = NetcodeServerTransport::new(
             ServerConfig {
                 current_time: Duration::ZERO,
@@ -179,7 +214,13 @@ impl<'c> World<'c> {
             let id = if cfg.end == End::DuplicateId { 500 } else { 500 + i as u64 };
             let mut ud = [0u8; 256];
             ud[0] = i as u8;
-            let addrs = if cfg.dead_first_addr && i == 0 { vec![dead.local_addr().unwrap(), relays[i].addr] } else { vec![relays[i].addr] };
+            let addrs = if cfg.dead_first_addr && i == 0 {
+                vec![dead.local_addr().unwrap(), relays[i].addr]
+            } else if let (Some(d), 0) = (&decoy, i) {
+                vec![d.sock.local_addr().unwrap(), relays[i].addr]
+            } else {
+                vec![relays[i].addr]
+            };
             let token = ConnectToken::generate(Duration::ZERO, PROTOCOL, 60, id, TIMEOUT_S, addrs, Some(&ud), &KEY)
                 .map_err(|e| Violation::new("machinery/token", e.to_string()))?;
             let tr = NetcodeClientTransport::new(Duration::ZERO, ClientAuthentication::Secure { connect_token: token }, s)
@@ -212,6 +253,7 @@ impl<'c> World<'c> {
             dead,
             stranger,
             server_addr,
+            decoy,
         })
     }
 
@@ -298,6 +340,52 @@ impl<'c> World<'c> {
             r.queue = rest;
         }
         Ok(())
+    }
+
+    /// the slow path to the second server: client datagrams are held `decoy_delay` ticks, answers pass at once
+    fn pump_decoy(&mut self, ctx: &mut Ctx) -> Result<(), Violation> {
+        let tick = self.tick;
+        let Some(delay) = self.cfg.decoy_delay else { return Ok(()) };
+        let Some(d) = self.decoy.as_mut() else { return Ok(()) };
+        let mut buf = [0u8; 2048];
+        loop {
+            match d.sock.recv_from(&mut buf) {
+                Ok((n, src)) => {
+                    if src == d.server {
+                        d.sock.send_to(&buf[..n], d.client).map_err(|e| Violation::new("machinery/relay-io", e.to_string()))?;
+                        d.forwarded_to_client += 1;
+                        ctx.note(|| format!("t{} slow path: {} B answer of the second server reaches client 0", tick, n));
+                    } else {
+                        d.queue.push((buf[..n].to_vec(), tick + delay));
+                    }
+                    ctx.transitions += 1;
+                }
+                Err(e) if e.kind() == std::io::ErrorKind::WouldBlock => break,
+                Err(e) => return Err(Violation::new("machinery/relay-io", e.to_string())),
+            }
+        }
+        let mut rest = vec![];
+        for (bytes, due) in d.queue.drain(..) {
+            if due <= tick {
+                d.sock.send_to(&bytes, d.server).map_err(|e| Violation::new("machinery/relay-io", e.to_string()))?;
+            } else {
+                rest.push((bytes, due));
+            }
+        }
+        d.queue = rest;
+        Ok(())
+    }
+
+    fn decoy_phase(&mut self) -> Result<(), Violation> {
+        let Some(d) = self.decoy.as_mut() else { return Ok(()) };
+        let dt = Duration::from_millis(DT_MS);
+        let (rs, st) = (&mut d.rs, &mut d.st);
+        guard("second server update", || {
+            rs.update(dt);
+            let _ = st.update(dt, rs);
+            while rs.get_event().is_some() {}
+            st.send_packets(rs);
+        })
     }
 
     fn obtain(&mut self, dir: u8, client: usize, ch: u8, m: Vec<u8>) -> Result<(), Violation> {
@@ -690,7 +778,11 @@ impl Scenario for UdpScenario {
                     }
                 }
                 w.pump(ctx, true)?;
+                w.pump_decoy(ctx)?;
                 w.server_phase(ctx)?;
+                w.decoy_phase()?;
+                // the second server's late answers reach the client ahead of this tick's answers of the first
+                w.pump_decoy(ctx)?;
                 w.pump(ctx, false)?;
                 let mut h = DefaultHasher::new();
                 let mut evs = w.events.clone();
@@ -764,6 +856,7 @@ pub fn scenarios(tier: Tier) -> Vec<UdpScenario> {
                 dead_first_addr: false,
                 server_hitch: None,
                 empty_flood: None,
+                decoy_delay: None,
             },
         });
     }
@@ -785,6 +878,7 @@ pub fn scenarios(tier: Tier) -> Vec<UdpScenario> {
                     dead_first_addr: false,
                     server_hitch: None,
                     empty_flood: None,
+                decoy_delay: None,
                 },
             });
         }
@@ -804,6 +898,7 @@ pub fn scenarios(tier: Tier) -> Vec<UdpScenario> {
         dead_first_addr: false,
         server_hitch: None,
         empty_flood: None,
+        decoy_delay: None,
     };
     {
         // time-out 2 s = 8 ticks of silence from the first address, then the relay's address answers
@@ -812,6 +907,16 @@ pub fn scenarios(tier: Tier) -> Vec<UdpScenario> {
         c.send_tick = 15;
         c.fault_from = 10;
         c.horizon = 17;
+        v.push(UdpScenario { cfg: c });
+    }
+    for delay in [8u32, 9, 11] {
+        // the client gives up on the first address at tick 8 (2 s); whatever that server answers afterwards is stale
+        let mut c = base(&format!("2 clients, client 0's token lists a second server on the same host first whose path is {} ticks slow, messages at tick 15", delay));
+        c.decoy_delay = Some(delay);
+        c.send_tick = 15;
+        c.fault_from = 12;
+        c.horizon = 17;
+        c.tail = 16;
         v.push(UdpScenario { cfg: c });
     }
     {
